@@ -581,7 +581,7 @@ func readerCase(out *bufio.Writer, k Kind, rep bool, field int32, data []byte, i
 		}
 		res = fmt.Sprintf("pf=%d pw=%d rem=%d err=%s val=%s", pf, pw, rem, es, valsString(vals))
 	}()
-	fmt.Fprintf(out, "reader\t%s\t%d\t%d\tx%s\t%s\t%s\n", k, b2i(rep), field, hex.EncodeToString(data), valsString(init), res)
+	fmt.Fprintf(out, "reader\t%s\t%d\t%d\tx%s\t%s\t%s\t%s\n", k, b2i(rep), field, hex.EncodeToString(data), valsString(init), res, refReader(k, rep, field, data, init))
 }
 
 func init() {
@@ -626,6 +626,38 @@ func init() {
 				}
 			}
 		}
+		// RepeatedEnum (hand-written writer): values are int32 enum numbers, negative ones included
+		{
+			alpha := scalarAlphabet(KInt32)
+			for j := 0; j < 40; j++ {
+				n := []int{0, 1, 1, 2, 3, 17, 127, 128, 129}[r.intn(9)]
+				vs := make([]*Val, n)
+				for i := range vs {
+					vs[i] = alpha[r.intn(len(alpha))]
+				}
+				f := fields[r.intn(len(fields))]
+				res := ""
+				func() {
+					defer func() {
+						if rr := recover(); rr != nil {
+							res = "PANIC"
+						}
+					}()
+					enc := picobuf.NewEncoder()
+					enc.RepeatedEnum(picobuf.FieldNumber(f), len(vs), func(i uint) int32 { return int32(vs[i].I.Int64()) })
+					res = "x" + hex.EncodeToString(enc.Buffer())
+				}()
+				ref := []byte{}
+				if n > 0 {
+					var p []byte
+					for _, v := range vs {
+						p = protowire.AppendVarint(p, uint64(v.I.Int64()))
+					}
+					ref = protowire.AppendBytes(protowire.AppendTag(nil, protowire.Number(f), protowire.BytesType), p)
+				}
+				fmt.Fprintf(out, "writer\tenum\t0\t1\t%d\t%s\t%s\tx%s\n", f, valsString(vs), res, hex.EncodeToString(ref))
+			}
+		}
 		return nil
 	})
 	register("readers", func(args []string, out *bufio.Writer) error {
@@ -636,8 +668,15 @@ func init() {
 				{0xff, 0xff, 0xff, 0xff, 0xff, 0xff, 0xff, 0xff, 0xff, 0x02}, {0x80, 0x80, 0x80, 0x80, 0x80, 0x80, 0x80, 0x80, 0x80, 0x80, 0x01},
 				{1, 2, 3, 4}, {1, 2, 3}, {1, 2, 3, 4, 5, 6, 7, 8}, {1, 2, 3, 4, 5, 6, 7}, {0xff, 0xff, 0xff, 0xff}, {0, 0, 0, 0x80}, {0xff, 0xff, 0xff, 0xff, 0xff, 0xff, 0xff, 0xff},
 				{3, 'a', 'b', 'c'}, {3, 'a', 'b'}, {4, 1, 0, 0, 0}, {8, 1, 2, 3, 4, 5, 6, 7, 8}, {2, 0x81, 0x00}, {3, 0x80, 0x80, 0x80}, {5, 1, 2, 3, 4, 5}, {0xff, 0xff, 0xff, 0xff, 0xff, 0xff, 0xff, 0xff, 0x7f}}
-			for _, v := range scalarAlphabet(k) {
-				ps = append(ps, refPayload(k, v))
+			alpha := scalarAlphabet(k)
+			for i, v := range alpha {
+				one := refPayload(k, v)
+				ps = append(ps, one)
+				if k != KString && k != KBytes {
+					ps = append(ps, protowire.AppendBytes(nil, one)) // packed, one element
+					two := append(append([]byte{}, one...), refPayload(k, alpha[(i*7+3)%len(alpha)])...)
+					ps = append(ps, protowire.AppendBytes(nil, two)) // packed, two elements
+				}
 			}
 			return ps
 		}
@@ -678,6 +717,38 @@ func init() {
 						}
 					}
 				}
+			}
+		}
+		// RepeatedEnum reader: same payload grid as repeated int32
+		for wt := 0; wt < 8; wt++ {
+			for _, p := range payloads(KInt32) {
+				data := protowire.AppendVarint(nil, uint64(5)<<3|uint64(wt))
+				data = append(data, p...)
+				if r.intn(3) == 0 {
+					data = append(data, 0x28, 0xff, 0xff, 0xff, 0xff, 0x0f)
+				}
+				res := ""
+				func() {
+					defer func() {
+						if rr := recover(); rr != nil {
+							res = "PANIC"
+						}
+					}()
+					dec := picobuf.NewDecoder(append([]byte{}, data...))
+					dec.VerifInit()
+					var vals []*Val
+					dec.RepeatedEnum(5, func(x int32) { vals = append(vals, vInt(int64(x))) })
+					pf, pw, rem := dec.VerifState()
+					es := "-"
+					if ef, em, ok := dec.VerifErrField(); ok {
+						es = fmt.Sprintf("%d:%s", ef, errClassOf(em))
+					}
+					if pf < 0 {
+						pw = 0
+					}
+					res = fmt.Sprintf("pf=%d pw=%d rem=%d err=%s val=%s", pf, pw, rem, es, valsString(vals))
+				}()
+				fmt.Fprintf(out, "reader\tenum\t1\t5\tx%s\t(l)\t%s\t%s\n", hex.EncodeToString(data), res, refReader(KInt32, true, 5, data, nil))
 			}
 		}
 		return nil
